@@ -9,8 +9,11 @@ import json, os, re, shutil, subprocess, sys, tempfile, time, hashlib, atexit
 VERIF = os.path.dirname(os.path.dirname(os.path.abspath(__file__)))
 REPO = os.environ.get("VERIF_REPO", "/repo")
 SPEC = os.path.join(VERIF, "spec")
-EVID = os.path.join(VERIF, "evidence")
-REPLAYS = os.path.join(VERIF, "replays")
+# evidence is about /repo itself: a run pointed at another tree (seeded-defect confirmation, VERIF_REPO) writes its evidence and
+# replays elsewhere so that the committed evidence always comes from /repo
+_FOREIGN = os.path.realpath(REPO) != "/repo"
+EVID = os.environ.get("VERIF_EVID") or (os.path.join("/var/tmp", "verif-foreign-evidence") if _FOREIGN else os.path.join(VERIF, "evidence"))
+REPLAYS = os.path.join("/var/tmp", "verif-foreign-replays") if _FOREIGN else os.path.join(VERIF, "replays")
 NCPU = os.cpu_count() or 4
 
 
